@@ -139,7 +139,8 @@ def optimal(
             count_item_in_bin = int(counts[iitem][ibin].x)
             for _ in range(count_item_in_bin):
                 binner.add_item_to_bin(output, items[iitem], ibin)
-    binner.sort_by_ascending_sum(output)
+    if all(weight==weights[0] for weight in weights):   # with different weights, bin i must stay the bin whose sum was divided by weights[i]
+        binner.sort_by_ascending_sum(output)
     return output
 
 
